@@ -332,10 +332,24 @@ def add_session(rng, case):
             off = base if r < 0.35 else base + rng.choice([-unit, unit]) if r < 0.6 else rng.randint(-4, 28) * unit
             off = int(off) if (float(off).is_integer() and rng.random() < 0.6) else float(off)
         ends.append(off)
+    ops = [[rng.choice(["until", "for"]), off] for off in ends]
+    # plain steps, and calls REFUSED by their argument checks in between (they must leave the stepping state alone)
+    for _ in range(rng.choice([0, 0, 1, 2])):
+        ops.insert(rng.randint(0, len(ops)), rng.choice([["step"], ["take", rng.randint(0, 3)]]))
+    for _ in range(rng.choice([0, 1, 1, 2, 3])):
+        ops.insert(rng.randint(0, len(ops)), ["bad", rng.choice(BAD_KINDS)])
     case["driver"] = 6
-    case["ends"] = ends
-    case["via"] = [rng.choice(["until", "for"]) for _ in ends]
+    case["ops"] = ops
     return case
+
+
+BAD_KINDS = ["step_size", "step_str", "take_size", "take_float", "until_type", "for_type"]
+
+
+def ops_of(case):
+    if "ops" in case:
+        return case["ops"]
+    return [[via, off] for off, via in zip(case.get("ends", []), case.get("via", []))]
 
 
 def gen_var(rng: random.Random):
@@ -360,7 +374,8 @@ def var_corpus():
     return [{"clock": "datetime", "time": {"start": [2005, 7, 1], "days": 12, "step": 1}, "driver": 5, "pop": 2,
              "mods": [2, 3], "comps": [{"hooks": {"4": None, "7": None, "3": None}, "hand": []}]},
             {"clock": "datetime", "time": {"start": [2005, 7, 1], "days": 12, "step": 1}, "driver": 6, "pop": 2,
-             "mods": [2, 3], "ends": [72, 73, 24, 200], "via": ["until", "for", "until", "for"],
+             "mods": [2, 3], "ops": [["bad", "step_size"], ["until", 72], ["for", 73], ["bad", "until_type"], ["step"],
+                                     ["until", 24], ["bad", "take_float"], ["for", 200]],
              "comps": [{"hooks": {"4": None, "7": None, "3": None}, "hand": []}]}]
 
 
@@ -604,15 +619,40 @@ def run_sim(case):
                 sim.setup(); sim.run(with_logging=False)
             else:
                 sim.setup()
-                for off, via in zip(case["ends"], case["via"]):
-                    e_val = (start_ts + pd.Timedelta(hours=off)) if dt else (t["start"] + off)
-                    targets.append(e_val)
+                env = next(c._env for c in comps if hasattr(c, "_env"))
+                for op in ops_of(case):
                     before = counter.n
-                    if via == "for":
-                        r = sim.run_for(e_val - sim.current_time, with_logging=False)
+                    if op[0] in ("until", "for"):
+                        e_val = (start_ts + pd.Timedelta(hours=op[1])) if dt else (t["start"] + op[1])
+                        if op[0] == "for":
+                            r = sim.run_for(e_val - sim.current_time, with_logging=False)
+                        else:
+                            r = sim.run_until(e_val, with_logging=False)
+                        rets.append(("run", e_val, r, counter.n - before, sim.current_time))
+                    elif op[0] in ("step", "take"):
+                        k = 1 if op[0] == "step" else op[1]
+                        sim.step() if op[0] == "step" else sim.take_steps(k, with_logging=False)
+                        rets.append(("take", k, None, counter.n - before, sim.current_time))
                     else:
-                        r = sim.run_until(e_val, with_logging=False)
-                    rets.append((r, counter.n - before, sim.current_time))
+                        # a call with an argument of an incompatible type: must raise and change nothing
+                        bad_step = (3 if dt else pd.Timedelta(days=1)) if op[1] != "step_str" else "x"
+                        state0 = (len(log), sim.current_time, env["step"](), counter.attempts)
+                        raised = None
+                        try:
+                            if op[1] in ("step_size", "step_str"):
+                                sim.step(step_size=bad_step)
+                            elif op[1] == "take_size":
+                                sim.take_steps(1, step_size=bad_step, with_logging=False)
+                            elif op[1] == "take_float":
+                                sim.take_steps(1.5, with_logging=False)
+                            elif op[1] == "until_type":
+                                sim.run_until(5 if dt else pd.Timestamp(2005, 1, 1), with_logging=False)
+                            else:
+                                sim.run_for("three days", with_logging=False)
+                        except Exception as e:
+                            raised = e
+                        state1 = (len(log), sim.current_time, env["step"](), counter.attempts)
+                        rets.append(("bad", op[1], raised, state0, state1))
         except Exception as e:
             err = e
         nsteps = counter.n
@@ -625,8 +665,17 @@ def run_sim(case):
         ocalls = [(CH[ch], lid, conv(c), conv(et), conv(es), STATE_ID.get(state, 99), n) for ch, lid, c, et, es, state, n in log]
         oinits = [(lid, conv(ct), conv(cw), conv(c), n) for lid, ct, cw, c, n in ilog]
         setup_clock = conv(setup_seen[0][0])
-        targets_i = [conv(x) for x in targets]
-        rets_i = [(r, n, conv(c)) for r, n, c in rets]
+        rets_i, targets_i = [], []           # per op: python-side record, and the model's op (kind, argument)
+        for rec in rets:
+            if rec[0] == "run":
+                rets_i.append(("run", conv(rec[1]), rec[2], rec[3], conv(rec[4])))
+                targets_i.append((0, conv(rec[1])))
+            elif rec[0] == "take":
+                rets_i.append(("take", rec[1], None, rec[3], conv(rec[4])))
+                targets_i.append((1, rec[1]))
+            else:
+                rets_i.append(rec)
+                targets_i.append((2, 0))
     except ValueError as e:
         return Result(ok=True, msg=f"outside the model's domain: {e}", coq=None, tags=("outside_domain",))
     tags = [case["clock"], f"driver{driver}", f"comps{len(case['comps'])}"]
@@ -669,15 +718,19 @@ def run_sim(case):
         # run_until / run_for to arbitrary end times: each call makes ceil((end - clock)/step) steps (none if end <= clock),
         # returns that number, and leaves the clock on the first grid point at or after the end
         n_exp, c = 0, start_i
-        for e_i, (r, n, c_after) in zip(targets_i, rets_i):
-            k = ceil_steps(c, e_i)
-            if n != k or r != k or c_after != c + k * step_i:
-                fail(f"run_until/run_for to {e_i} from clock {c}: {n} steps (returned {r}), clock {c_after}; expected "
+        for rec in rets_i:
+            if rec[0] == "bad":
+                check_refused(rec, fail)
+                continue
+            kind, arg, r, n, c_after = rec
+            k = ceil_steps(c, arg) if kind == "run" else arg
+            if n != k or (kind == "run" and r != k) or c_after != c + k * step_i:
+                fail(f"{kind} {arg} from clock {c}: {n} steps (returned {r}), clock {c_after}; expected "
                      f"{k} steps and clock {c + k * step_i}")
             n_exp += k
             c = c_after
-        if err is None and len(rets_i) != len(case["ends"]):
-            fail("harness: not every run_until call was made")
+        if err is None and len(rets_i) != len(ops_of(case)):
+            fail("harness: not every call of the session was made")
     else:
         n_exp = ceil_steps(start_i, stop_i)
     if setup_clock != start_i:
@@ -750,14 +803,33 @@ def run_sim(case):
     obs = cpair(clist(cpair(cz(ch), cz(lid), cz(c), cz(et), cz(es), cz(state)) for ch, lid, c, et, es, state, n in ocalls),
                 clist(cpair(cz(lid), cz(ct), cz(cw), cz(c)) for lid, ct, cw, c, n in oinits),
                 cz(final_i), cz(nsteps), cz(ocode))
-    coq = "(" + cpair(cz(start_i), cz(stop_i), cz(step_i), cz(coq_driver), czlist(targets_i), "[]", coq_comps(case), obs) + " : sim_case)"
+    coq = "(" + cpair(cz(start_i), cz(stop_i), cz(step_i), cz(coq_driver), coq_ops(targets_i), "[]", coq_comps(case), obs) + " : sim_case)"
     if driver == 6:
         tags.append("session")
-        tags += [("end_before_clock" if k == 0 else "end_reached") for _, k, _ in rets_i]
+        tags += [("refused_" + rec[1]) if rec[0] == "bad" else "steps_taken" if rec[0] == "take" else
+                 ("end_before_clock" if rec[3] == 0 else "end_reached") for rec in rets_i]
     return Result(ok=ok, msg=msg, coq=coq, key=(case["clock"], str(case["time"]), driver, str(case["comps"])) if ocalls else None,
                   obs={"steps": nsteps, "expected_steps": n_exp, "start": start_i, "stop": stop_i, "step": step_i,
                        "final": final_i, "calls": len(ocalls), "inits": len(oinits), "error": repr(err) if err else None, "finding_class": "F-V" if (failures and all(c == "F-V" for c in failures)) else None},
                   tags=tuple(tags))
+
+
+def coq_ops(ops):
+    return clist(cpair(cz(k), cz(a)) for k, a in ops)
+
+
+def check_refused(rec, fail):
+    """a driver call with an argument of an incompatible type: it must raise, emit nothing, and leave the clock and the
+    step size exactly as they were (so that the following steps are those of the same session without it)"""
+    _, kind, raised, before, after = rec
+    if raised is None:
+        fail(f"refused-call probe `{kind}`: the call with an incompatible argument did not raise")
+    if before[0] != after[0]:
+        fail(f"refused call `{kind}` ({raised!r}) still ran {after[0] - before[0]} listener calls")
+    if before[1] != after[1]:
+        fail(f"refused call `{kind}` ({raised!r}) moved the clock from {before[1]} to {after[1]}")
+    if not (type(before[2]) is type(after[2]) and before[2] == after[2]):
+        fail(f"refused call `{kind}` ({raised!r}) changed the clock's step size from {before[2]!r} to {after[2]!r}")
 
 
 def finish_var(case, L):
@@ -809,12 +881,22 @@ def finish_var(case, L):
     if err is None:
         if driver == 6:
             c = start_i
-            for e_i, (r, n, c_after) in zip(targets_i, rets_i):
-                if r != n:
-                    fail(f"run_until/run_for to {e_i} returned {r} after {n} steps")
-                c2 = check_segment(c, e_i, n, f"run_until/run_for to {e_i} from {c}")
+            for rec in rets_i:
+                if rec[0] == "bad":
+                    check_refused(rec, fail)
+                    continue
+                kind, arg, r, n, c_after = rec
+                if kind == "run":
+                    if r != n:
+                        fail(f"run_until/run_for to {arg} returned {r} after {n} steps")
+                    c2 = check_segment(c, arg, n, f"run_until/run_for to {arg} from {c}")
+                else:
+                    if n != arg:
+                        fail(f"take_steps({arg}) made {n} steps")
+                    i = clocks.index(c) if c in clocks else None
+                    c2 = clocks[i + n] if i is not None and i + n < len(clocks) else None
                 if c2 != c_after:
-                    fail(f"run_until/run_for to {e_i}: clock {c_after} afterwards, steps lead to {c2}")
+                    fail(f"{kind} {arg}: clock {c_after} afterwards, steps lead to {c2}")
                 c = c_after
         else:
             check_segment(start_i, stop_i, nsteps, "run")
@@ -836,11 +918,11 @@ def finish_var(case, L):
     obs = cpair(clist(cpair(cz(ch), cz(lid), cz(c), cz(et), cz(es), cz(state)) for ch, lid, c, et, es, state, n in ocalls),
                 clist(cpair(cz(lid), cz(ct), cz(cw), cz(c)) for lid, ct, cw, c, n in oinits),
                 cz(final_i), cz(nsteps), cz(ocode))
-    coq = "(" + cpair(cz(start_i), cz(stop_i), cz(step_i), cz(coq_driver), czlist(targets_i),
+    coq = "(" + cpair(cz(start_i), cz(stop_i), cz(step_i), cz(coq_driver), coq_ops(targets_i),
                       clist(cpair(cz(c), cz(es)) for c, es in sorted(tbl.items())), coq_comps(case), obs) + " : sim_case)"
     return Result(ok=not L["failures"], msg=L["fail_msgs"][0] if L["fail_msgs"] else "", coq=coq,
-                  key=(str(case["time"]), case["driver"], str(case["mods"]), str(case.get("ends")), str(case["comps"])),
-                  obs={"steps": steps[:20], "nsteps": nsteps, "final": final_i, "targets": targets_i, "returns": rets_i,
+                  key=(str(case["time"]), case["driver"], str(case["mods"]), str(ops_of(case)), str(case["comps"])),
+                  obs={"steps": steps[:20], "nsteps": nsteps, "final": final_i, "session": [str(x)[:120] for x in rets_i],
                        "error": repr(err) if err else None, "finding_class": None},
                   tags=tuple(tags))
 
@@ -1004,9 +1086,12 @@ def shrink_sim(case):
                 c = copy.deepcopy(case); c["time"]["days"] = d; yield c
     if "end" in t and t["end"] - t["start"] > t["step"]:
         c = copy.deepcopy(case); c["time"]["end"] = t["start"] + t["step"] * max(1, int((t["end"] - t["start"]) / t["step"] / 2)); yield c
-    for i in range(len(case.get("ends", []))):
-        if len(case["ends"]) > 1:
-            c = copy.deepcopy(case); del c["ends"][i]; del c["via"][i]; yield c
+    if case.get("driver") == 6:
+        ops = ops_of(case)
+        for i in range(len(ops)):
+            if len(ops) > 1:
+                c = copy.deepcopy(case); c["ops"] = [o for j, o in enumerate(ops) if j != i]
+                c.pop("ends", None); c.pop("via", None); yield c
     if case.get("mods") and len(case["mods"]) > 1:
         c = copy.deepcopy(case); c["mods"] = case["mods"][:-1]; c["pop"] = len(c["mods"]); yield c
     if case["pop"] > 1 and not case.get("mods"):
